@@ -7,6 +7,9 @@ bad = 0
 for sid in sorted(os.listdir(os.path.join(HERE, 'seeded'))):
     d = os.path.join(HERE, 'seeded', sid)
     meta = json.load(open(os.path.join(d, 'meta.json')))
+    if not meta.get('caught_by'):
+        print('%-45s not caught, recorded as outside the model (see meta.json)' % sid)
+        continue
     if subprocess.run(['git', '-C', '/repo', 'diff', '--quiet']).returncode:
         print('/repo not clean'); sys.exit(3)
     r = subprocess.run(['git', '-C', '/repo', 'apply', os.path.join(d, 'patch.diff')], capture_output=True, text=True)
